@@ -573,7 +573,8 @@ unsigned cmb_random_geometric(const double p)
     static CMB_THREAD_LOCAL double prev = 0.0;
     static CMB_THREAD_LOCAL double denom = 0.0;
     if (p != prev) {
-        denom = -log(1.0 - p);
+        /* p == 1 succeeds at the first trial; log(0) would trap inside an experiment */
+        denom = (p < 1.0) ? -log(1.0 - p) : HUGE_VAL;
     }
 
     unsigned x = (unsigned)ceil(cmb_random_std_exponential() / denom);
